@@ -15,7 +15,8 @@ LEVEL_TEXT = ("MGM (both break modes) and MGM2 (threshold 0/.3/.5/1, all favor m
               "cycle c is recorded through the documented _on_new_cycle hook (logical snapshot A_c). Oracle: the "
               "independent global cost (constraints + variable costs) of A_{c+1} is never worse than that of A_c, and "
               "no two constraint-sharing variables change between A_c and A_{c+1} unless the wire log shows both "
-              "sent go?=True to each other in that cycle (one coordinated MGM2 move). Sampling of inputs x schedules "
+              "sent go?=True to each other in that cycle (one coordinated MGM2 move). A quarter of the cases are tie DCOPs (costs 0/1/2, own "
+              "domain per variable), a sixth carry big-M penalties of 10^18. Sampling of inputs x schedules "
               "x seeds.")
 LEVEL_NOTE = ("Trusted: SimNet FIFO model, reference cost evaluator. Snapshots are logical (per cycle count), which is "
               "what 'all computations have completed the same number of cycles' means under skewed schedules.")
